@@ -561,6 +561,7 @@ func checkC03(w *World, r *Report) {
 	r.Explanation += " Round 10: (R03.6) output does not depend on pool recycling of containers templates hold."
 	r.Explanation += " Round 11: (R03.1) stores under names translated through another table."
 	r.Explanation += " Round 12: (R03.3) key comparators do not compare Value.String() of non-string keys."
+	r.Explanation += " Round 13: (R03.1) entries are not added to the map a loop ranges over."
 	r.RuleText = "obligation = one map-ordered loop (or one nondeterminism source); non-trivial = loops whose body had to be classified (all)"
 	r.Trusted = []string{"sort.* / slices.Sort* produce a key-determined order", "call-graph over-approximation for 'reachable from render roots'"}
 
